@@ -16,7 +16,11 @@ import (
 // single-worker run.
 func init() {
 	core.Extend("C15", "family concurrent: user function per record (locals, nested call, recursion, optional parameter), user aggregate per group and per partition with arguments that differ from row to row, "+
-		"3 workers x 6 records, all goroutine schedules with at most 1 non-default decision; oracle: the single-worker run", func(c *core.Ctx) { goxFamilyRun(c, "concurrent", c15ConcurrentScenarios(), true) })
+		"3 workers x 6 records, all goroutine schedules with at most 1 non-default decision; oracle: the single-worker run", func(c *core.Ctx) {
+		if !c15Skip(c, "concurrent") {
+			goxFamilyRun(c, "concurrent", c15ConcurrentScenarios(), true)
+		}
+	})
 }
 
 func c15ConcurrentScenarios() []goxScenario {
